@@ -158,7 +158,19 @@ def run(ctx):
     idd = load.single_def('id')
     ctx.check('C09.X2', idd is not None and 'DepsLog::nodes_.size()' in dstr(idd), load.name, 'id:next', load.loc,
               'the id of a path record is nodes_.size(): %s' % dstr(idd))
-    ctx.floor('C09.X2', 6)
+    # ids are handed out one per node: RecordId(n) is called only where n->id() < 0 is known for that very n
+    # (collecting the nodes first and recording them later gives a node that occurs twice two ids)
+    nrid = 0
+    for f2, e2 in calls_to(prog, 'DepsLog::RecordId'):
+        nrid += 1
+        key = dstr(strip(e2['args'][0])).replace(' ', '')
+        fs2 = f2.facts_at(e2)
+        okr = any(pol is True and isinstance(strip(a), dict) and strip(a).get('k') == 'bin' and strip(a)['op'] == '<' and
+                  const_value(strip(a)['r']) == 0 and mentions_field(a, 'Node::id_') and key in dstr(a).replace(' ', '') for k2, (pol, a) in fs2.items())
+        ctx.check('C09.X2', okr, f2.name, 'RecordId:id-not-known-unassigned', f2.where(e2),
+                  'RecordId(%s) runs under the fact %s->id() < 0' % (key[:40], key[:40]))
+    ctx.check('C09.X2', nrid >= 2, 'DepsLog::RecordId', 'RecordId:sites', 'src/deps_log.cc', '%d RecordId call sites' % nrid)
+    ctx.floor('C09.X2', 9)
 
     # ---- TA1: layout agreement writer / reader ---------------------------------------------------
     R('C09.TA1', 'TA', 'the word layout written by RecordDeps / RecordId agrees with what Load reads: '
